@@ -160,7 +160,49 @@ func (l *commitLog) init() error {
 	return nil
 }
 
+// recoverReplacements completes or rolls back a segment replacement
+// (compaction or truncation) that was interrupted by a crash. A replacement is
+// written to "<base>.log<suffix>" and "<base>.index<suffix>", then the log and
+// finally the index are renamed over the originals.
+func (l *commitLog) recoverReplacements() error {
+	files, err := os.ReadDir(l.Path)
+	if err != nil {
+		return errors.Wrap(err, "read dir failed")
+	}
+	for _, file := range files {
+		for _, suffix := range []string{cleanedSuffix, truncatedSuffix} {
+			if !strings.HasSuffix(file.Name(), suffix) {
+				continue
+			}
+			var (
+				path = filepath.Join(l.Path, file.Name())
+				name = strings.TrimSuffix(file.Name(), suffix)
+			)
+			if strings.HasSuffix(name, indexFileSuffix) {
+				logReplacement := filepath.Join(l.Path,
+					strings.TrimSuffix(name, indexFileSuffix)+logFileSuffix+suffix)
+				if !exists(logReplacement) {
+					// The log was already swapped in, finish with the index.
+					if err := os.Rename(path, filepath.Join(l.Path, name)); err != nil {
+						return errors.Wrap(err, "failed to finish segment replacement")
+					}
+					continue
+				}
+			}
+			// Nothing was swapped in yet. Discard the replacement, it must not
+			// be appended to by the next compaction or truncation.
+			if err := os.Remove(path); err != nil && !os.IsNotExist(err) {
+				return errors.Wrap(err, "failed to remove stale segment replacement")
+			}
+		}
+	}
+	return nil
+}
+
 func (l *commitLog) open() error {
+	if err := l.recoverReplacements(); err != nil {
+		return err
+	}
 	files, err := os.ReadDir(l.Path)
 	if err != nil {
 		return errors.Wrap(err, "read dir failed")
